@@ -532,3 +532,110 @@ Proof.
   intros Hwf z Hz. rewrite (c1_nth x n Hwf z Hz). cbv zeta.
   destruct (RI.ltb_spec (get 0 (nm_c1k x) z + get 0 (ni_dn x) z * ni_wdt x / 2) 0); lra.
 Qed.
+
+(* ---------------- Denitmo (peat soils): the counter gains at least what the soil loses ---------------- *)
+Lemma denit_layer_bounds (c fr d : R) :
+  0 <= c -> 0 <= fr -> 0 <= @denit_layer R RNum c fr d /\ c - d * fr <= denit_layer c fr d /\
+  (0 <= d -> denit_layer c fr d <= c).
+Proof.
+  intros Hc Hfr. unfold denit_layer, gtb. rsimp.
+  destruct (RI.ltb_spec 0 fr); [destruct (RI.ltb_spec (c - d * fr) 0)|]; repeat split; intros; try lra; try nra;
+    assert (fr = 0) by lra; subst; lra.
+Qed.
+
+Definition frac_of (nit v : R) : R := if RI.ltb 0 nit then v / nit else 0.
+
+Lemma block_sum (a b c d : R) (swap : bool) :
+  0 <= a -> 0 <= b -> 0 <= c -> (a + b + c <= 0 -> d = 0) ->
+  let n := a + b + c in
+  let fb := if swap then frac_of n c else frac_of n b in
+  let fc := if swap then frac_of n b else frac_of n c in
+  0 <= @denit_layer R RNum a (frac_of n a) d /\ 0 <= @denit_layer R RNum b fb d /\ 0 <= @denit_layer R RNum c fc d /\
+  n - d <= @denit_layer R RNum a (frac_of n a) d + @denit_layer R RNum b fb d + @denit_layer R RNum c fc d.
+Proof.
+  intros Ha Hb Hc Hd n fb fc.
+  assert (Hf : forall v, 0 <= v -> 0 <= frac_of n v).
+  { intros v Hv. unfold frac_of. destruct (RI.ltb_spec 0 n); [|lra].
+    unfold Rdiv. apply Rmult_le_pos; [lra | left; apply Rinv_0_lt_compat; lra]. }
+  pose proof (denit_layer_bounds a (frac_of n a) d Ha (Hf a Ha)) as (A0 & A1 & _).
+  pose proof (denit_layer_bounds b fb d Hb ltac:(unfold fb; destruct swap; auto)) as (B0 & B1 & _).
+  pose proof (denit_layer_bounds c fc d Hc ltac:(unfold fc; destruct swap; auto)) as (C0 & C1 & _).
+  repeat split; try assumption.
+  assert (Hs : d * frac_of n a + d * fb + d * fc = (if RI.ltb 0 n then d else 0)).
+  { unfold fb, fc, frac_of. destruct (RI.ltb_spec 0 n) as [Hp|Hp].
+    - destruct swap; unfold n in *; field; lra.
+    - destruct swap; lra. }
+  destruct (RI.ltb_spec 0 n) as [Hp|Hp]; unfold n in *.
+  - lra.
+  - rewrite (Hd ltac:(lra)) in *. lra.
+Qed.
+
+Lemma block_rate_zero (nit nq fth fte : R) : nit <= 0 -> @block_rate R RNum nit nq fth fte = 0.
+Proof. intros H. unfold block_rate, gtb. rsimp. destruct (RI.ltb_spec 0 nit); [lra | reflexivity]. Qed.
+
+Lemma denitmo_books (x : denitmo_in (T:=R)) :
+  length (dm_c1 x) = 9%nat -> Forall (fun c => 0 <= c) (dm_c1 x) ->
+  let o := denitmo x in
+  Forall (fun c => 0 <= c) (dmo_c1 o) /\
+  Rsum (dm_c1 x) - (dmo_cum o - dm_cum x) <= Rsum (dmo_c1 o).
+Proof.
+  intros L HF.
+  destruct (dm_c1 x) as [|c0 [|c1 [|c2 [|c3 [|c4 [|c5 [|c6 [|c7 [|c8 [|]]]]]]]]]] eqn:E; try (cbn in L; lia).
+  repeat match goal with H : Forall _ (_ :: _) |- _ => inversion H; clear H; subst end.
+  unfold denitmo. rewrite E. unfold get. cbn [nth]. cbv zeta. cbn [dmo_c1 dmo_cum Rsum]. unfold gtb. rsimp.
+  set (d1 := block_rate (c0 + c1 + c2) _ _ _). set (d2 := block_rate (c3 + c4 + c5) _ _ _).
+  set (d3 := block_rate (c6 + c7 + c8) _ _ _).
+  pose proof (block_sum c0 c1 c2 d1 false ltac:(assumption) ltac:(assumption) ltac:(assumption)
+                (fun H => block_rate_zero _ _ _ _ H)) as (A0 & A1 & A2 & AS).
+  pose proof (block_sum c3 c4 c5 d2 false ltac:(assumption) ltac:(assumption) ltac:(assumption)
+                (fun H => block_rate_zero _ _ _ _ H)) as (B0 & B1 & B2 & BS).
+  pose proof (block_sum c6 c7 c8 d3 true ltac:(assumption) ltac:(assumption) ltac:(assumption)
+                (fun H => block_rate_zero _ _ _ _ H)) as (C0 & C1 & C2 & CS).
+  cbv zeta in *. unfold frac_of in *.
+  split; [repeat (apply Forall_cons; [assumption|]); apply Forall_nil | lra].
+Qed.
+
+(* ---------------- tillage mixing conserves every pool over the mixing depth ---------------- *)
+Lemma sum_first_spec m : forall (s : R) l, (m <= length l)%nat -> @sum_first R RNum m s l = s + Rsum (firstn m l).
+Proof.
+  induction m as [|m IH]; intros s l Hm; [cbn; lra|].
+  destruct l as [|x r]; [cbn in Hm; lia|]. cbn [sum_first firstn Rsum]. rewrite IH by (cbn in Hm; lia). rsimp. lra.
+Qed.
+
+Lemma set_first_sum m : forall (v : R) l, (m <= length l)%nat ->
+  Rsum (@set_first R m v l) = INR m * v + Rsum (skipn m l) /\ length (set_first m v l) = length l.
+Proof.
+  induction m as [|m IH]; intros v l Hm; [cbn; split; [lra|reflexivity]|].
+  destruct l as [|x r]; [cbn in Hm; lia|]. cbn [set_first skipn Rsum length].
+  destruct (IH v r ltac:(cbn in Hm; lia)) as [E L]. rewrite E, L, S_INR. split; [lra|reflexivity].
+Qed.
+
+Lemma mix_pool_conserves (pool : list R) m :
+  (1 <= m <= length pool)%nat -> Rsum (@mix_pool R RNum (INR m) m pool) = Rsum pool.
+Proof.
+  intros Hm. unfold mix_pool. destruct (set_first_sum m (sum_first m zero pool / INR m)%num pool ltac:(lia)) as [E _].
+  rewrite E, sum_first_spec by lia. rsimp.
+  assert (INR m <> 0) by (apply not_0_INR; lia).
+  rewrite <- (firstn_skipn m pool) at 3. rewrite Rsum_app. field. assumption.
+Qed.
+
+Lemma mix_c1_only_adds (c1 : list R) m :
+  (1 <= m <= length c1)%nat -> Rsum c1 <= Rsum (@mix_c1 R RNum (INR m) m c1) /\
+  (Forall (fun c => 0 <= c) c1 -> Rsum (@mix_c1 R RNum (INR m) m c1) = Rsum c1).
+Proof.
+  intros Hm. unfold mix_c1. cbv zeta.
+  assert (HI : INR m <> 0) by (apply not_0_INR; lia). assert (0 < INR m) by (apply lt_0_INR; lia).
+  set (v := (sum_first m zero c1 / INR m)%num).
+  assert (Ev : v = Rsum (firstn m c1) / INR m) by (unfold v; rewrite sum_first_spec by lia; rsimp; f_equal; lra).
+  assert (Esum : Rsum c1 = INR m * v + Rsum (skipn m c1)).
+  { rewrite Ev. rewrite <- (firstn_skipn m c1) at 1. rewrite Rsum_app. field. assumption. }
+  rsimp. destruct (RI.ltb_spec v 0) as [Hneg|Hpos].
+  - destruct (set_first_sum m 0 c1 ltac:(lia)) as [E _]. rewrite E. split.
+    + nra.
+    + intros HF. exfalso.
+      assert (0 <= Rsum (firstn m c1)).
+      { clear -HF. revert m. induction HF as [|x l Hx HF IH]; intros [|m]; cbn; try lra. specialize (IH m). lra. }
+      rewrite Ev in Hneg. apply Rmult_lt_compat_r with (r := INR m) in Hneg; [|assumption].
+      unfold Rdiv in Hneg. rewrite Rmult_assoc, Rinv_l in Hneg by assumption. lra.
+  - destruct (set_first_sum m v c1 ltac:(lia)) as [E _]. rewrite E. split; [lra | intros _; lra].
+Qed.
